@@ -894,6 +894,12 @@ class VmapBatchHandler:
 
         # Compute new sample shape
         n = static_dim_length(batch_axes, vector_args)
+        # The batched sampler treats the leading axis of its parameters as the
+        # lane axis (and reports output axis 0): bring mapped axes to the front.
+        vector_args = tuple(
+            arg if axis is None else jnp.moveaxis(arg, axis, 0)
+            for arg, axis in zip(vector_args, batch_axes)
+        )
         outer_batch_dim = self._compute_outer_batch_dim(n, axis_size)
         new_sample_shape = outer_batch_dim + self.config.sample_shape
 
